@@ -66,12 +66,47 @@ func (h *histProp) Plan(tier string, seed int64) []core.Segment {
 			segs = append(segs, core.Segment{Kind: "mid:" + t, N: mid})
 			segs = append(segs, core.Segment{Kind: "large:" + t, N: lg, Chunk: 2})
 			segs = append(segs, core.Segment{Kind: "default:" + t, N: def, Chunk: 1})
+			tp := int64(10)
+			if sa {
+				tp = 6
+			}
+			segs = append(segs, core.Segment{Kind: "twophase:" + t, N: tp * tierScale(tier, 10), Chunk: 2})
+			if sa {
+				// short operation shapes on more than 64 Ki buffered positions:
+				// a sample in the quick tier, all of them in the thorough tier
+				a := int64(len(shapeAlphabet(h.weights)))
+				n := a * a * a
+				if tier == "thorough" {
+					n = shapeCount(h.weights)
+				}
+				segs = append(segs, core.Segment{Kind: "shapes:" + t, N: n, Chunk: 2})
+			}
 		} else {
 			segs = append(segs, core.Segment{Kind: "long:" + t, N: 300 * tierScale(tier, 20)})
 			segs = append(segs, core.Segment{Kind: "bigblock:" + t, N: 160 * tierScale(tier, 10), Chunk: 10})
 		}
 	}
 	return segs
+}
+
+const shapeLen = 5
+
+// shapeAlphabet lists the operations of the shape enumeration; Parse(nil) is
+// part of it for the properties whose histories contain it.
+func shapeAlphabet(w HWeights) []POp {
+	a := []POp{{K: "parse"}, {K: "parse", A: lz.NoTrailingLiterals}, {K: "write"}, {K: "shrink"}}
+	if w.ParseNil > 0 {
+		a = append(a, POp{K: "parse", B: 1})
+	}
+	return a
+}
+
+func shapeCount(w HWeights) int64 {
+	n := int64(1)
+	for i := 0; i < shapeLen; i++ {
+		n *= int64(len(shapeAlphabet(w)))
+	}
+	return n
 }
 
 func splitKind(kind string) (class, typ string) {
@@ -171,6 +206,78 @@ func (h *histProp) Gen(kind string, idx int64, seed int64, tier string) core.Cas
 				pc.Ops[i].D *= 1 + r.Intn(200)
 			}
 		}
+	case "twophase":
+		// buffers of 130-260 kB that are filled in two or three steps without
+		// a Shrink in between: the search structures computed for the first
+		// part (more than 64 Ki positions) are still there when data is
+		// appended behind them; then the usual random history
+		o.MaxBuf = 270000
+		o.MinBuf = 130000
+		pc = GenPCase(r, typ, o, h.weights, 40, 300000+r.Intn(300000))
+		pc.Cfg.BufferSize = 135000 + r.Intn(130000)
+		pc.Cfg.ShrinkSize = []int{0, 1000, 70000, pc.Cfg.BufferSize / 3}[r.Intn(4)]
+		pc.Cfg.BlockSize = []int{8192, 16384, 32768, 32768, 65536, 50000}[r.Intn(6)]
+		pc.Cfg.WindowSize = []int{0, 1 << 16, 1 << 17, 1 << 18, 4096}[r.Intn(5)]
+		if (typ == "GSAP" || typ == "OSAP") && pc.Cfg.WindowSize == 0 {
+			pc.Cfg.WindowSize = 1 << 17
+		}
+		w := h.weights
+		w.Shrink, w.Reset, w.ResetData, w.Other = 0, 0, 0, -1
+		w.Write, w.ReadFrom, w.WParse = 6, 3, 0
+		phase1 := append([]POp{{K: "write", A: 0, B: 65536 + r.Intn(70000)}}, GenOps(r, 10+r.Intn(14), w)...)
+		for i := range phase1[1:] {
+			op := &phase1[1+i]
+			if (op.K == "write" || op.K == "readfrom") && op.A == 0 {
+				op.B = 1 + r.Intn(60000)
+			}
+		}
+		for i := range pc.Ops {
+			op := &pc.Ops[i]
+			if (op.K == "write" || op.K == "readfrom") && op.A == 0 {
+				op.B *= 1 + r.Intn(300)
+			}
+			if op.K == "wparse" && op.C&1 == 0 {
+				op.D *= 1 + r.Intn(300)
+			}
+		}
+		pc.Ops = append(phase1, pc.Ops...)
+	case "shapes":
+		// [Write of more than 64 KiB, Parse] followed by every sequence of 5
+		// operations over Parse / Parse(NoTrailingLiterals) / Parse(nil) /
+		// Write / Shrink, with a block size of about half the first write so
+		// that the second or third block crosses the end of the data the
+		// search structures were computed for
+		alpha := shapeAlphabet(h.weights)
+		total := shapeCount(h.weights)
+		code := idx
+		if tier != "thorough" {
+			// quick: data is appended right after the first block, then all
+			// sequences of three operations, then a random one
+			a := int64(len(alpha))
+			code = 2 + a*(idx%(a*a*a)) + a*a*a*a*r.Int63n(a)
+		}
+		_ = total
+		n1 := 65536 + r.Intn(6000)
+		c := gen.SmallCfg(r, typ, o)
+		c.BufferSize = 140000 + r.Intn(60000)
+		c.ShrinkSize = []int{0, 1000, 40000}[r.Intn(3)]
+		c.BlockSize = n1/2 - 3000 + r.Intn(6000)
+		c.WindowSize = []int{1 << 16, 1 << 17, 1 << 18, 4096}[r.Intn(4)]
+		fam, stream := gen.Bytes(r, 250000, c.Hint())
+		ops := []POp{{K: "write", B: n1}, {K: "parse"}}
+		for j := 0; j < shapeLen; j++ {
+			op := alpha[code%int64(len(alpha))]
+			code /= int64(len(alpha))
+			if op.K == "write" {
+				op.B = 1 + r.Intn(50000)
+			}
+			ops = append(ops, op)
+		}
+		// drain what is left with normal blocks
+		for j := 0; j < 8; j++ {
+			ops = append(ops, POp{K: "parse"})
+		}
+		pc = PCase{Cfg: c, Family: fam, Stream: stream, Ops: ops}
 	case "default":
 		c := gen.Cfg{Type: typ}
 		if typ == "GSAP" || typ == "OSAP" {
